@@ -26,6 +26,8 @@ impl builtins::Command for AliasCommand {
 
         if self.print || self.aliases.is_empty() {
             for (name, value) in context.shell.aliases() {
+                // N.B. A single quote can't appear inside single quotes; close, escape, reopen.
+                let value = value.replace('\'', r"'\''");
                 writeln!(context.stdout(), "alias {name}='{value}'")?;
             }
         } else {
@@ -38,6 +40,7 @@ impl builtins::Command for AliasCommand {
                         .aliases_mut()
                         .insert(name.to_owned(), unexpanded_value.to_owned());
                 } else if let Some(value) = context.shell.aliases().get(alias) {
+                    let value = value.replace('\'', r"'\''");
                     writeln!(context.stdout(), "alias {alias}='{value}'")?;
                 } else {
                     writeln!(
